@@ -592,7 +592,7 @@ fn shim_str_ends_with_1(s: &str, cs: [char; 1]) -> (r: bool)
     jb = jv.fn("java_base_types")
     jb.contracted = True
     jb.props_all = ["C16"]
-    jb.props_safety = ["C13"]
+    jb.props_safety = ["C13", "C12"]
     jb.ret("r")
     mjb = re.search(r"fn\s+java_base_types\s*\(\s*(\w+)\s*:\s*char", jb.orig)
     if not mjb:
@@ -606,7 +606,7 @@ fn shim_str_ends_with_1(s: &str, cs: [char; 1]) -> (r: bool)
     ps = jv.fn("parse_obfuscated_bytecode_signature")
     ps.contracted = True
     ps.props_all = ["C16"]
-    ps.props_safety = ["C13"]
+    ps.props_safety = ["C13", "C12"]
     ps.ret("ret")
     # shims: the functional variants where the proof needs them
     ps.method_to_shim("strip_prefix", "shim_str_strip_prefix_char_f", arg_ok=lambda a: a.startswith("'"), why="str::strip_prefix(char), functional contract")
@@ -698,7 +698,7 @@ fn shim_str_ends_with_1(s: &str, cs: [char; 1]) -> (r: bool)
         f = jv.fn(name)
         f.contracted = True
         f.props_all = ["C16"]
-        f.props_safety = ["C13"]
+        f.props_safety = ["C13" if remap == "mapper_remap" else "C12"]
         f.ret("ret")
         render_fn(f, remap)
         for m in re.finditer(r'"((?:[^"\\]|\\.)*)"', f.orig):
@@ -719,7 +719,7 @@ fn shim_str_ends_with_1(s: &str, cs: [char; 1]) -> (r: bool)
     nw = mpr.impl_fn(DS, "new")
     nw.contracted = True
     nw.props_all = ["C16"]
-    nw.props_safety = ["C13"]
+    nw.props_safety = ["C13", "C12"]
     nw.ret("ret")
     mn = re.search(r"fn\s+new\s*\(\s*(\w+)\s*:", nw.orig)
     if not mn:
@@ -731,7 +731,7 @@ fn shim_str_ends_with_1(s: &str, cs: [char; 1]) -> (r: bool)
     rt = mpr.impl_fn(DS, "return_type")
     rt.contracted = True
     rt.props_all = ["C16"]
-    rt.props_safety = ["C13"]
+    rt.props_safety = ["C13", "C12"]
     rt.ret("ret")
     rt.contract("    ensures /*@L:return_type_accessor_returns_the_stored_string:C16*/ sb(ret) == sbs(self.return_type),")
     rt.method_to_shim("as_str", "shim_string_as_str", borrow="&", why="String::as_str: the same bytes")
@@ -739,7 +739,7 @@ fn shim_str_ends_with_1(s: &str, cs: [char; 1]) -> (r: bool)
     fs = mpr.impl_fn(DS, "format_signature")
     fs.contracted = True
     fs.props_all = ["C16"]
-    fs.props_safety = ["C13"]
+    fs.props_safety = ["C13", "C12"]
     fs.ret("ret")
     fs.contract("    ensures /*@L:formatted_signature_lists_parameters_then_non_void_return_type:C16*/ sbs(ret) == fmt_sig_spec(strs(self.parameters@), sbs(self.return_type)),")
     fs.method_to_shim("join", "shim_vec_string_join", borrow="&", why="[String]::join(&str)")
@@ -772,7 +772,7 @@ fn shim_str_ends_with_1(s: &str, cs: [char; 1]) -> (r: bool)
         g = src_.impl_fn(IMPL, "deobfuscate_signature")
         g.contracted = True
         g.props_all = ["C16"]
-        g.props_safety = ["C13"]
+        g.props_safety = ["C13" if remap == "mapper_remap" else "C12"]
         g.ret("ret")
         mg = re.search(r"fn\s+deobfuscate_signature\s*\(\s*&(?:'\w+\s+)?self\s*,\s*(\w+)\s*:\s*&str\s*\)", g.orig)
         mm = re.search(r"\.map\(\s*(DeobfuscatedSignature::new)\s*\)", g.orig)
@@ -808,7 +808,7 @@ fn shim_str_ends_with_1(s: &str, cs: [char; 1]) -> (r: bool)
         f = jv.fn(name)
         f.contracted = True
         f.props_all = ["C16"]
-        f.props_safety = ["C13"]
+        f.props_safety = ["C13" if remap == "mapper_remap" else "C12"]
         f.ret("ret")
         assemble_fn(f, render_name, remap)
         u.emit(f)
